@@ -68,7 +68,9 @@ var specs = map[string]*propSpec{
 		"strconv.Atoi/Itoa by contract (syntax, sign, range exact over mathematical integers)"),
 	"C17": mk("C17", []string{"HarnessCallback", "HarnessSSODecode", "HarnessSSOACS", "HarnessLogout"}, nil, []string{"callback.form"},
 		"usage level: html/template's escaping itself is the library's contract and is not encoded"),
-	"C18": mk("C18", []string{"HarnessC18"}, nil, []string{"C18.roundtrip"}),
+	"C18": mk("C18", []string{"HarnessC18", "HarnessCallback", "HarnessSSODecode", "HarnessSSOACS", "HarnessLogout", "HarnessAttrQuery", "HarnessMetadata"}, nil,
+		[]string{"C18.roundtrip", "C18.unknown-encoding", "callback.form", "callback.redirect", "logout.success", "attrquery.success", "metadata.served"},
+		"character-level escaping and flate's codec are library contracts; routes: every reply is one document made by a library encoder and the message in it decodes with the library's own decoder (struct-level round trip)"),
 	"C19": mk("C19", []string{"HarnessC19Static", "HarnessC19Dynamic"}, nil, []string{"C19.static-accepted", "C19.dynamic"}),
 	"C20": {
 		ID:        "C20",
